@@ -136,9 +136,10 @@ func (l *lab) RADIUSSecret(ctx context.Context, remoteAddr net.Addr) ([]byte, er
 	if l.serverCtx == nil {
 		l.serverCtx = ctx
 	}
+	release := t.secretGo // read under the lock: the controller clears the field when it releases the task
 	l.mu.Unlock()
 	l.askCh <- idx
-	<-t.secretGo
+	<-release
 	s, ok := l.secrets[remoteAddr.String()]
 	if !ok {
 		return nil, errors.New("no secret for peer")
